@@ -44,7 +44,7 @@ func ruleChargeOnRead(ctx *Ctx, rule string) {
 	r := ctx.Rep
 	// who may call the two readers
 	for _, f := range q.FuncsIn("", "encoding/text", "pogs", "rpc", "server") {
-		for _, b := range f.Blocks {
+		for _, b := range frameBlocks(f) {
 			for _, in := range b.Instrs {
 				cn := ssaq.StaticCalleeName(in)
 				if cn == "capnp.(*Segment).readStructPtr" || cn == "capnp.(*Segment).readListPtr" {
@@ -64,7 +64,7 @@ func ruleChargeOnRead(ctx *Ctx, rule string) {
 		return
 	}
 	n := 0
-	for _, b := range f.Blocks {
+	for _, b := range frameBlocks(f) {
 		for _, in := range b.Instrs {
 			call, ok := in.(*ssa.Call)
 			if !ok {
@@ -123,7 +123,7 @@ func ruleCanRead(ctx *Ctx, rule string) {
 	// one load per iteration; one compare-and-swap, or one per outcome
 	var load *ssa.Call
 	var cases []*ssa.Call
-	for _, b := range f.Blocks {
+	for _, b := range frameBlocks(f) {
 		for _, in := range b.Instrs {
 			switch ssaq.StaticCalleeName(in) {
 			case "sync/atomic.LoadUint64":
@@ -187,7 +187,7 @@ func ruleCanRead(ctx *Ctx, rule string) {
 		retry = retry && one
 	}
 	// a success result is given only where the budget was sufficient
-	for _, b := range f.Blocks {
+	for _, b := range frameBlocks(f) {
 		ret, ok := b.Instrs[len(b.Instrs)-1].(*ssa.Return)
 		if !ok || len(ret.Results) != 1 {
 			continue
@@ -211,7 +211,7 @@ func ruleCanRead(ctx *Ctx, rule string) {
 	}
 	// result: curr >= sz, and the subtraction happens only under it
 	okRes := false
-	for _, b := range f.Blocks {
+	for _, b := range frameBlocks(f) {
 		for _, in := range b.Instrs {
 			if bo, ok := in.(*ssa.BinOp); ok && bo.Op == token.SUB && bo.X == ssa.Value(load) {
 				for _, a := range ssaq.DomAtoms(bo) {
